@@ -531,11 +531,14 @@ package tree
 //@   inv 1 [C09] bound: -1 <= rangeindex && rangeindex < len(f)
 //
 //@ fn node.applyMiddleware
+//@   requires [C06] lock: heldW(n)
 //@   requires n != nil && allocated(n) && allSafe() && (forall k int :: 0 <= k && k < len(ms) ==> ms[k] != nil)
 //@   atcall tree.ApplyMiddleware [C09] args: in(arg1, n.handlers) && arg0 == n.handlers[arg1] && arg2 == n.pattern && arg3 == n.root.name && arg4 == ms
 //
 //@ fn Tree.ApplyMiddleware
 //@   requires treeOK(tree) && allSafe() && (forall k int :: 0 <= k && k < len(ms) ==> ms[k] != nil)
+//@   requires [C06] lock-free: lockFree(tree)
+//@   ensures [C06] released: lockFree(tree)
 //@   ensures [C09] always-everything: called("tree.ApplyMiddleware", 1) && called("tree.node.applyMiddleware", 1) && tree.notFound == callresult("tree.ApplyMiddleware", 1, 0)
 //@   atcall tree.ApplyMiddleware [C09] special: (arg1 == "" || (arg1 == "TRACE" && tree.hasTrace)) && arg2 == "" && arg3 == tree.name && arg4 == ms
 //@   atcall tree.node.applyMiddleware [C09] whole-tree: arg0 == tree.node && arg1 == ms
